@@ -522,8 +522,17 @@ func c13Copy(c *Ctx, ix *PkgIndex, xc xformCopy) []string {
 			continue
 		}
 		key := sp + "|" + pv.msg + "." + pv.fld + "|source mentions " + pv.must
-		c.Check(ok && strings.Contains(src, pv.must) && !strings.Contains(src, " | "), "R2", key, site, "← "+src,
-			pv.msg+"."+pv.fld+" is populated from '"+src+"', expected the SDK's "+strings.Trim(pv.must, ".()")+" (fields with a same-typed sibling are easy to swap and type-check)")
+		// the source is the like-named value alone: a start time folded into the end time (or the reverse) rewrites what the SDK
+		// recorded
+		sibling := map[string]string{"Span.EndTimeUnixNano": "StartTime", "Span.StartTimeUnixNano": "EndTime",
+			"HistogramDataPoint.TimeUnixNano": "StartTime", "NumberDataPoint.TimeUnixNano": "StartTime", "ExponentialHistogramDataPoint.TimeUnixNano": "StartTime",
+			"HistogramDataPoint.StartTimeUnixNano": ".Time", "NumberDataPoint.StartTimeUnixNano": ".Time", "ExponentialHistogramDataPoint.StartTimeUnixNano": ".Time"}
+		mixed := ""
+		if sib, has := sibling[pv.msg+"."+pv.fld]; has && ok && strings.Contains(src, sib) {
+			mixed = sib
+		}
+		c.Check(ok && strings.Contains(src, pv.must) && !strings.Contains(src, " | ") && mixed == "", "R2", key, site, "← "+src,
+			pv.msg+"."+pv.fld+" is populated from '"+src+"', expected the SDK's "+strings.Trim(pv.must, ".()")+" alone (fields with a same-typed sibling are easy to swap or mix and still type-check)")
 	}
 	// per-iteration ownership: a slice of an array local that is stored inside a loop must slice an array declared in that loop body
 	for _, f := range ix.All {
